@@ -19,6 +19,13 @@ Sub-checks / keys:
   C08:sne_repeat:<what>        SneLikelihood (custom, file) evaluated repeatedly with sigma_sne: value repeatable, sharp value
                                unchanged afterwards, stored covariance untouched
   C08:kde_rescale              KDE-chain term: chain samples, rescale dictionary and the argument vector untouched, value repeatable
+  C08:copy_reproducibility:<component>   one stochastic component per case (los_individual_GEV | los_individual_PDF | los_global_GAUSSIAN |
+                               los_global_GEV | lambda_mst | lambda_ifu | a_ani_GAUSSIAN | a_ani_GAUSSIAN_SCALED | a_ani_GAUSSIAN_TAN_RAD |
+                               beta_inf_GOM | gamma_in | log_m2l | gamma_pl_global | sigma_sne | joint), on a LensLikelihood and on a
+                               CosmoLikelihood: with np.random.seed(s) the original, its deep copy, its pickle round trip and a pickle of
+                               the deep copy return the value of a never-copied object, bit-identically, evaluated once / repeatedly /
+                               twice after one seed / interleaved original-copy and copy-original, and leave the global stream at the
+                               same position (no copy owns a private generator)
   C08:raises:<where>           hierArc raised where a value is promised
 """
 import os
@@ -529,8 +536,260 @@ def run_kde(rec, case):
     rec.check(snap(pts) == s_pts, "C08:mutated:args", "argument vectors (views of a walker array) modified by the KDE rescaling", d, jsonable(pts), "unchanged")
 
 
-STREAMS = {1: None, 2: run_lens_direct, 3: run_sne, 4: run_kde}
-COUNTS = {"quick": {1: 12, 2: 24, 3: 18, 4: 12}, "thorough": {1: 64, 2: 240, 3: 180, 4: 120}}
+# ------------------------------------------------------------------ copies draw from the SAME (global, seedable) random stream
+# One case = one stochastic component a lens can be configured with (or all of them jointly), on a LensLikelihood called
+# directly and on a CosmoLikelihood holding that lens.  np.random.seed(s) must determine the value on the original, on its
+# deep copy, on its pickle round trip and on a pickle of the deep copy (emcee Pool / multiprocessing) -- bit-identical to
+# what a never-copied object built from the same configuration returns -- when evaluated once, repeatedly, in either
+# order (original first / copy first), and the evaluation must consume the global stream identically (the next
+# np.random.random() agrees), i.e. no copy may own a private generator.
+COMPONENTS = ["los_individual_GEV", "los_individual_PDF", "los_global_GAUSSIAN", "los_global_GEV", "lambda_mst", "lambda_ifu",
+              "a_ani_GAUSSIAN", "a_ani_GAUSSIAN_SCALED", "a_ani_GAUSSIAN_TAN_RAD", "beta_inf_GOM", "gamma_in", "log_m2l",
+              "gamma_pl_global", "sigma_sne", "joint"]
+AX_C = dict(a_ani=np.linspace(0.2, 5.0, 7), beta_inf=np.linspace(0.0, 1.0, 5), gamma_in=np.linspace(0.2, 2.2, 6),
+            log_m2l=np.linspace(-0.2, 1.0, 5), gamma_pl=np.linspace(1.5, 2.5, 6))
+C_KMS = 299792.458
+_FID = {}
+
+
+def fid_cosmo():
+    if "c" not in _FID:
+        _FID["c"] = cosmo_interp(70.0, 0.3, zmax=4.0, n=120)
+    return _FID["c"]
+
+
+def component_case(rng, comp):
+    """-> (lens kwargs [without the global switches], kwargs_model for CosmoLikelihood, hyper-parameter dicts, cosmo_level ok)
+    Data are placed on the prediction of the fiducial cosmology so that the values are finite and of order -1..-100."""
+    C = fid_cosmo()
+    kinlike = comp in ("a_ani_GAUSSIAN", "a_ani_GAUSSIAN_SCALED", "a_ani_GAUSSIAN_TAN_RAD", "beta_inf_GOM", "gamma_in", "log_m2l")
+    if kinlike: pool = KIN_TYPES
+    elif comp == "sigma_sne": pool = MAG_TYPES
+    elif comp == "gamma_pl_global": pool = KIN_TYPES + ["DSPL"]
+    elif comp == "joint": pool = KIN_TYPES + ["TDMag"]
+    elif comp.startswith("los_"): pool = [t for t in TYPES if t != "DSPL"]          # DSPL does not depend on kappa_ext
+    else: pool = TYPES
+    t = str(pool[int(rng.integers(len(pool)))])
+    zl = float(rng.uniform(0.2, 0.7)); zs = float(zl + rng.uniform(0.6, 1.8))
+    dd = fscalar(C.angular_diameter_distance(zl).value); ds = fscalar(C.angular_diameter_distance(zs).value)
+    dds = fscalar(C.angular_diameter_distance_z1z2(zl, zs).value); ddt = (1 + zl) * dd * ds / dds; r = ds / dds
+    nk = int(rng.integers(1, 4))
+    d = lens_kwargs(t, rng, nkin=nk)
+    f = float(1 + rng.normal(0, 0.02))
+    if "ddt_samples" in d: d["ddt_samples"] = (d["ddt_samples"] + (ddt * f - 4000.))[:150]
+    if "dd_samples" in d: d["dd_samples"] = (d["dd_samples"] + (dd * f - 1200.))[:150]
+    if d.get("ddt_weights", None) is not None: d["ddt_weights"] = d["ddt_weights"][:150]
+    if "ddt_mean" in d: d["ddt_mean"], d["ddt_sigma"] = ddt * f, 0.06 * ddt
+    if "dd_mean" in d: d["dd_mean"], d["dd_sigma"] = dd * f, 0.07 * dd
+    if "ds_dds_mean" in d: d["ds_dds_mean"], d["ds_dds_sigma"] = r * f, 0.08 * r
+    if "ddt_mu" in d: d["ddt_mu"] = float(np.log(ddt * f))
+    if "j_model" in d:
+        sv = rng.uniform(200, 300, nk)
+        d["j_model"] = list((sv / C_KMS) ** 2 / r); d["error_cov_j_sqrt"] = pd(rng, nk, 5.0 / (C_KMS * np.sqrt(r)))
+        d["sigma_v_measurement"] = list(sv * (1 + rng.normal(0, 0.02, nk)))
+    if t == "DSPL":
+        zs2 = zs + 1.0
+        ds2 = fscalar(C.angular_diameter_distance(zs2).value); dds2 = fscalar(C.angular_diameter_distance_z1z2(zl, zs2).value)
+        d.update(z_source2=zs2, beta_dspl=float(dds / ds * ds2 / dds2 * f), sigma_beta_dspl=0.03)
+    lens = dict(z_lens=zl, z_source=zs, likelihood_type=t, name="c", num_distribution_draws=int(rng.integers(2, 9)), **d)
+    km = {}
+    kl, kk, ks, klos = {}, {}, {}, []
+    mu_sne = 19.3
+    if t in MAG_TYPES:      # source magnitude reproducing the measured amplitudes / magnitudes
+        da = fscalar(C.angular_diameter_distance(0.1).value)
+        dl = 5 * np.log10((1 + zs) ** 2 * ds) - 5 * np.log10(1.1 ** 2 * da)
+        mu_sne = float((19.7 if t == "TDMagMagnitude" else 20 - 2.5 * np.log10(2.0)) - dl)
+    n_grid = len(d["j_model"]) if "j_model" in d else 1
+
+    def grid(names):
+        shape = tuple(len(AX_C[k]) for k in names)
+        lens.update(kin_scaling_param_list=list(names), j_kin_scaling_param_axes=[AX_C[k].copy() for k in names],
+                    j_kin_scaling_grid_list=[rng.uniform(0.85, 1.2, size=shape) for _ in range(n_grid)])
+
+    def los_individual(kind):
+        if kind == "GEV":
+            lens.update(los_distribution_individual="GEV", kwargs_los_individual=dict(xi=float(rng.uniform(-0.2, 0.2)), mean=float(rng.uniform(-0.01, 0.04)),
+                                                                                         sigma=float(rng.uniform(0.01, 0.04))))
+        else:
+            nb = int(rng.integers(5, 15))
+            lens.update(los_distribution_individual="PDF", kwargs_los_individual=dict(bin_edges=np.linspace(-0.05, 0.1, nb + 1), pdf_array=rng.uniform(0.2, 1, nb)))
+
+    def los_global(kind):
+        npop = int(rng.integers(1, 4)); k = int(rng.integers(npop))
+        dists = [str(rng.choice(["GAUSSIAN", "GEV"])) for _ in range(npop)]; dists[k] = kind
+        km.update(los_sampling=True, los_distributions=dists)
+        lens["global_los_distribution"] = k
+        for dist in dists:
+            e = dict(mean=float(rng.uniform(-0.02, 0.05)), sigma=float(rng.uniform(0.01, 0.04)))
+            if dist == "GEV": e["xi"] = float(rng.uniform(-0.2, 0.2))
+            klos.append(e)
+
+    def lam(ifu):
+        km.update(lambda_mst_sampling=True, lambda_mst_distribution="GAUSSIAN")
+        kl.update(lambda_mst=float(rng.uniform(0.95, 1.05)), lambda_mst_sigma=0.0 if ifu else float(rng.uniform(0.02, 0.08)))
+        if ifu:
+            km.update(lambda_ifu_sampling=True, lambda_ifu_distribution="GAUSSIAN"); lens["mst_ifu"] = True
+            kl.update(lambda_ifu=float(rng.uniform(0.95, 1.05)), lambda_ifu_sigma=float(rng.uniform(0.02, 0.08)))
+
+    def aniso(model, dist, names):
+        km.update(anisotropy_sampling=True, anisotropy_model=model, anisotropy_distribution=dist)
+        a = float(rng.uniform(1.2, 3.0)) if dist != "GAUSSIAN_TAN_RAD" else float(rng.uniform(0.5, 0.8))   # TAN_RAD realises 1 - N(a, s)^2
+        kk.update(a_ani=a, a_ani_sigma=float(rng.uniform(0.05, 0.3)) / (a if dist == "GAUSSIAN_SCALED" else 1.0))
+        if dist == "GAUSSIAN_TAN_RAD": kk["a_ani_sigma"] = float(rng.uniform(0.03, 0.1))
+        if model == "GOM": kk.update(beta_inf=float(rng.uniform(0.3, 0.7)), beta_inf_sigma=float(rng.uniform(0.05, 0.3)))    # some re-draws outside [0, 1]
+        return names
+
+    cosmo_level = True
+    names = []
+    if comp == "los_individual_GEV": los_individual("GEV")
+    elif comp == "los_individual_PDF": los_individual("PDF")
+    elif comp == "los_global_GAUSSIAN": los_global("GAUSSIAN")
+    elif comp == "los_global_GEV": los_global("GEV")
+    elif comp == "lambda_mst": lam(False)
+    elif comp == "lambda_ifu": lam(True)
+    elif comp == "a_ani_GAUSSIAN": names = aniso(str(rng.choice(["OM", "const"])), "GAUSSIAN", ["a_ani"])
+    elif comp == "a_ani_GAUSSIAN_SCALED": names = aniso("OM", "GAUSSIAN_SCALED", ["a_ani"])
+    elif comp == "a_ani_GAUSSIAN_TAN_RAD":
+        names = aniso("const", "GAUSSIAN_TAN_RAD", ["a_ani"]); cosmo_level = False      # ParamManager has no a_ani_sigma for this distribution
+    elif comp == "beta_inf_GOM": names = aniso("GOM", str(rng.choice(["GAUSSIAN", "GAUSSIAN_SCALED"])), ["a_ani", "beta_inf"])
+    elif comp in ("gamma_in", "log_m2l"):
+        names = ["gamma_in", "log_m2l"] if rng.random() < 0.5 else [comp]
+        if "gamma_in" in names: km.update(gamma_in_sampling=True, gamma_in_distribution="GAUSSIAN")
+        if "log_m2l" in names: km.update(log_m2l_sampling=True, log_m2l_distribution="GAUSSIAN")
+        kl.update(gamma_in=float(rng.uniform(0.9, 1.5)), gamma_in_sigma=0.0, log_m2l=float(rng.uniform(0.2, 0.6)), log_m2l_sigma=0.0)
+        kl[comp + "_sigma"] = float(rng.uniform(0.05, 0.4))       # some re-draws outside the interpolation range
+    elif comp == "gamma_pl_global":
+        km.update(gamma_pl_global_sampling=True, gamma_pl_global_dist="GAUSSIAN")
+        kl.update(gamma_pl_mean=float(rng.uniform(1.9, 2.1)), gamma_pl_sigma=float(rng.uniform(0.02, 0.1)))
+        if t != "DSPL": names = ["gamma_pl"]
+    elif comp == "sigma_sne":
+        km.update(sne_apparent_m_sampling=True, sne_distribution="GAUSSIAN")
+        ks.update(mu_sne=mu_sne, sigma_sne=float(rng.uniform(0.03, 0.2)))
+    elif comp == "joint":
+        lam(bool(rng.random() < 0.5))
+        if rng.random() < 0.5: los_individual(str(rng.choice(["GEV", "PDF"])))
+        else: los_global(str(rng.choice(["GEV", "GAUSSIAN"])))
+        km.update(sne_apparent_m_sampling=True, sne_distribution="GAUSSIAN"); ks.update(mu_sne=mu_sne, sigma_sne=float(rng.uniform(0.03, 0.2)))
+        if t in KIN_TYPES:
+            names = aniso("GOM", "GAUSSIAN", ["a_ani", "beta_inf"]) + ["gamma_in", "log_m2l"]
+            km.update(gamma_in_sampling=True, gamma_in_distribution="GAUSSIAN", log_m2l_sampling=True, log_m2l_distribution="GAUSSIAN")
+            kl.update(gamma_in=1.2, gamma_in_sigma=0.1, log_m2l=0.4, log_m2l_sigma=0.05)
+            km["sigma_v_systematics"] = True; kk["sigma_v_sys_error"] = 0.03; lens["sigma_sys_error_include"] = True
+        km.update(gamma_pl_global_sampling=True, gamma_pl_global_dist="GAUSSIAN"); kl.update(gamma_pl_mean=2.0, gamma_pl_sigma=0.05)
+    if names and t != "DSPL": grid(names)
+    if t in MAG_TYPES and "mu_sne" not in ks:
+        km.update(sne_apparent_m_sampling=True, sne_distribution="GAUSSIAN"); ks.update(mu_sne=mu_sne, sigma_sne=0.0)
+    if "sne_apparent_m_sampling" in km: km["z_apparent_m_anchor"] = 0.1
+    return lens, km, dict(kwargs_lens=kl, kwargs_kin=kk, kwargs_source=ks, kwargs_los=klos), cosmo_level
+
+
+def run_copy_repro(rec, case):
+    rng = rng_case(case)
+    comp = COMPONENTS[int(case[2]) % len(COMPONENTS)]
+    lens, km, hyper, cosmo_level = component_case(rng, comp)
+    key = "C08:copy_reproducibility:" + comp
+    fixed_cosmo = bool(rng.random() < 0.5)
+    d = dict(case=list(case), component=comp, type=lens["likelihood_type"], N=lens["num_distribution_draws"], model=km,
+             los_individual=lens.get("los_distribution_individual"), global_los=lens.get("global_los_distribution"), hyper=hyper, cosmo_fixed=fixed_cosmo)
+    rec.case(d, kind="copy:" + comp)
+    s, a0, a1 = (int(rng.integers(1 << 30)) for _ in range(3))
+    C = fid_cosmo()
+    global_keys = ["anisotropy_model", "anisotropy_sampling", "anisotropy_distribution", "los_distributions", "lambda_mst_distribution", "gamma_in_sampling",
+                   "gamma_in_distribution", "log_m2l_sampling", "log_m2l_distribution", "gamma_pl_global_sampling", "gamma_pl_global_dist"]
+
+    def build_lens():
+        kw = copy.deepcopy(lens); kw.update({k: copy.deepcopy(km[k]) for k in global_keys if k in km})
+        return LensLikelihood(**kw)
+
+    def eval_lens(L):
+        h = copy.deepcopy(hyper)
+        if not h["kwargs_los"]: h["kwargs_los"] = None
+        if "mu_sne" in h["kwargs_source"]: h["kwargs_source"]["z_apparent_m_anchor"] = 0.1
+        return fscalar(L.lens_log_likelihood(C, **h))
+
+    def wide(sign):
+        out = {}
+        for blk in ("kwargs_lens", "kwargs_kin", "kwargs_source"):
+            out[blk] = {k: v + sign * 50.0 for k, v in hyper[blk].items()}
+        out["kwargs_los"] = [{k: v + sign * 50.0 for k, v in e.items()} for e in hyper["kwargs_los"]]
+        return out
+    lo, hi = wide(-1), wide(+1)
+
+    def build_cosmo():
+        kb = dict(kwargs_lower_cosmo=dict(h0=0.0, om=0.0), kwargs_upper_cosmo=dict(h0=200.0, om=1.0),
+                  kwargs_lower_lens=lo["kwargs_lens"], kwargs_upper_lens=hi["kwargs_lens"], kwargs_lower_kin=lo["kwargs_kin"], kwargs_upper_kin=hi["kwargs_kin"],
+                  kwargs_lower_source=lo["kwargs_source"], kwargs_upper_source=hi["kwargs_source"], kwargs_lower_los=lo["kwargs_los"], kwargs_upper_los=hi["kwargs_los"])
+        cf = None
+        if fixed_cosmo:
+            from astropy.cosmology import FlatLambdaCDM
+            cf = FlatLambdaCDM(H0=70.0, Om0=0.3)
+        return CosmoLikelihood([copy.deepcopy(lens)], "FLCDM", copy.deepcopy(km), copy.deepcopy(kb), interpolate_cosmo=True, num_redshift_interp=30, cosmo_fixed=cf)
+
+    def eval_cosmo(cl):
+        args = np.array(cl.param.kwargs2args(kwargs_cosmo=dict(h0=70.0, om=0.3), kwargs_lens=hyper["kwargs_lens"], kwargs_kin=hyper["kwargs_kin"],
+                                             kwargs_source=hyper["kwargs_source"], kwargs_los=hyper["kwargs_los"]), dtype=float)
+        return fscalar(cl.likelihood(args))
+
+    for level, build, evaluate in (("lens", build_lens, eval_lens), ("cosmo", build_cosmo, eval_cosmo)):
+        if level == "cosmo" and not cosmo_level:
+            continue
+        dl = dict(d, level=level, np_seed=s)
+        try:
+            obj, fresh = build(), build()
+        except Exception as e:
+            rec.violation("C08:raises:" + ("LensLikelihood" if level == "lens" else "CosmoLikelihood"), "constructor raised %r" % (e,), dl, traceback.format_exc(limit=3))
+            continue
+
+        def seeded(o, n=1):
+            np.random.seed(s)
+            vals = [evaluate(o) for _ in range(n)]
+            return vals, float(np.random.random())      # the position of the global stream after the evaluation(s)
+        try:
+            (r1, r2), tail2 = seeded(fresh, 2)
+            (r1b,), tail1 = seeded(fresh, 1)
+            np.random.seed(a0); evaluate(obj)                      # some earlier evaluation on the object that is going to be copied
+            np.random.seed(a1)                                     # arbitrary state of the global generator when the copies are made
+        except Exception as e:
+            rec.violation("C08:raises:likelihood", "evaluation raised %r" % (e,), dl, traceback.format_exc(limit=3))
+            continue
+        try:
+            objs = {"same": obj, "deepcopy": copy.deepcopy(obj), "pickle": pickle.loads(pickle.dumps(obj))}
+            objs["pickle_of_deepcopy"] = pickle.loads(pickle.dumps(objs["deepcopy"]))
+        except Exception as e:
+            rec.violation("C08:raises:clone", "deepcopy/pickle of the likelihood object raised %r" % (e,), dl, traceback.format_exc(limit=3))
+            continue
+        if r1 == r2 or not np.isfinite(r1):
+            rec.tally("copy:trivial(no scatter reached the value or -inf)")
+        rec.check(r1b == r1, key, "never-copied object: the same np.random.seed gives two different values", dict(dl, object="fresh"), [r1, r1b], "equal")
+        order = list(objs)
+        try:
+            # (1) one seeded evaluation, repeated; original first, then copies first
+            for tag, seq in (("original_first", order), ("copies_first", order[::-1])):
+                for nm in seq:
+                    for rep in range(2):
+                        v, tl = seeded(objs[nm], 1)
+                        rec.check(v[0] == r1, key, "np.random.seed(s) does not determine the value on the %s object (value of a never-copied object expected)" % nm,
+                                  dict(dl, object=nm, order=tag, repeat=rep), v[0], r1)
+                        rec.check(tl == tail1, key, "the evaluation on the %s object does not consume the global numpy stream like the original (private generator?)" % nm,
+                                  dict(dl, object=nm, order=tag, repeat=rep, what="next np.random.random() after the evaluation"), tl, tail1)
+            # (2) two consecutive evaluations after one seed
+            for nm in order:
+                v, tl = seeded(objs[nm], 2)
+                rec.check(v == [r1, r2] and tl == tail2, key, "two consecutive evaluations after np.random.seed(s) differ from those of a never-copied object (%s)" % nm,
+                          dict(dl, object=nm, order="twice_after_one_seed"), v + [tl], [r1, r2, tail2])
+            # (3) original and copy interleaved on one stream, both orders
+            for nm in order[1:]:
+                for tag, pair in (("original_then_copy", (obj, objs[nm])), ("copy_then_original", (objs[nm], obj))):
+                    np.random.seed(s)
+                    v = [evaluate(pair[0]), evaluate(pair[1])]
+                    rec.check(v == [r1, r2], key, "original and %s evaluated one after the other on one seeded stream: values differ from two evaluations of one object" % nm,
+                              dict(dl, object=nm, order=tag), v, [r1, r2])
+        except Exception as e:
+            rec.violation("C08:raises:likelihood", "raised on a copy: %r" % (e,), dl, traceback.format_exc(limit=3))
+
+
+STREAMS = {1: None, 2: run_lens_direct, 3: run_sne, 4: run_kde, 5: run_copy_repro}
+COUNTS = {"quick": {1: 12, 2: 24, 3: 18, 4: 12, 5: 2 * len(COMPONENTS)}, "thorough": {1: 64, 2: 240, 3: 180, 4: 120, 5: 20 * len(COMPONENTS)}}
 NSTEPS = {"quick": 20, "thorough": 48}
 
 
@@ -551,7 +810,7 @@ def main():
         rec.write(a.out)
         return
     budget = 34 if a.tier == "quick" else 330
-    for stream in (2, 3, 4, 1):
+    for stream in (2, 3, 4, 5, 1):
         for i in range(COUNTS[a.tier][stream]):
             if time.process_time() - rec.cpu0 > 2 * budget:
                 rec.tally("stopped_on_time_budget")
